@@ -4,7 +4,6 @@ From Verif Require Import GoSem Chunk Timeline.
 
 Record c09case := {
   c_id : Z;
-  c_guard : bool;             (* the tree refuses chunkDur <= 0 (probed by the harness) *)
   c_durs : list Z;            (* sample durations of the segment (from the whole-segment response, or generated) *)
   c_hasStyp : bool;
   c_newTime : Z; c_newNr : Z; c_newDur : Z;
@@ -35,8 +34,7 @@ Definition run_case (c : c09case) : Z * list (bool * Z * Z * Z * Z) * list Z :=
   else if (0 <=? c_availMS c) &&
           match checkTime (c_availMS c) 1000 (c_nowMS c) 60 (Some (c_atoChk c)) with TvGone => true | _ => false end
        then (3, [], [])   (* 410 Gone: default timeShiftBufferDepth 60 s + margin *)
-  else match chunksOf (c_guard c && match c_chunkDur c with None => true | Some _ => false end)
-                      (mk_samples (c_durs c)) (c_hasStyp c) (c_newTime c) (c_newNr c) (c_newDur c) (case_chunkDur c) with
+  else match chunkSegment (mk_samples (c_durs c)) (c_hasStyp c) (c_newTime c) (c_newNr c) (c_newDur c) (case_chunkDur c) with
        | Panic _ => (2, [], [])
        | Err _ => (3, [], [])
        | Ok cs => (0, map chunk_view cs, avail_list (c_ts c) (c_newTime c + c_startS c * c_ts c) cs)
